@@ -24,10 +24,10 @@ pub(super) fn read_values(
 ) -> Result<Vec<Option<Value>>, DecodeError> {
     let value_ty = read_type(src)
         .map_err(DecodeError::InvalidType)?
-        .expect("unhandled type");
+        .ok_or(DecodeError::TypeMismatch)?;
 
     match (number, ty, value_ty) {
-        (Number::Count(0), _, _) => todo!("invalid number for type"),
+        (Number::Count(0), _, _) => Err(DecodeError::InvalidNumber),
 
         (_, _, Type::Int8(0) | Type::Int16(0) | Type::Int32(0) | Type::Float(0)) => {
             Err(DecodeError::InvalidLength)
@@ -63,7 +63,7 @@ pub(super) fn read_values(
             read_string_array_values(src, sample_count, n)
         }
 
-        _ => todo!("unhandled type"),
+        _ => Err(DecodeError::TypeMismatch),
     }
 }
 
@@ -424,7 +424,7 @@ pub(super) fn read_genotype_values(
                 }
             }
         },
-        ty => todo!("unhandled type: {:?}", ty),
+        _ => return Err(DecodeError::TypeMismatch),
     }
 
     Ok(values)
@@ -470,6 +470,8 @@ fn parse_genotype_values(values: &[i8]) -> Result<Genotype, DecodeError> {
 #[derive(Debug, Eq, PartialEq)]
 pub enum DecodeError {
     InvalidType(ty::DecodeError),
+    TypeMismatch,
+    InvalidNumber,
     InvalidLength,
     InvalidRawValue(raw_value::DecodeError),
     InvalidString(str::Utf8Error),
@@ -493,6 +495,8 @@ impl fmt::Display for DecodeError {
     fn fmt(&self, f: &mut fmt::Formatter<'_>) -> fmt::Result {
         match self {
             Self::InvalidType(_) => write!(f, "invalid type"),
+            Self::TypeMismatch => write!(f, "type mismatch"),
+            Self::InvalidNumber => write!(f, "invalid number for type"),
             Self::InvalidLength => write!(f, "invalid length"),
             Self::InvalidRawValue(_) => write!(f, "invalid raw value"),
             Self::InvalidString(_) => write!(f, "invalid string"),
@@ -562,6 +566,37 @@ mod tests {
         assert_eq!(
             read_values(&mut src, Number::Count(2), format::Type::Character, 1),
             Err(DecodeError::InvalidCharacter)
+        );
+    }
+
+    #[test]
+    fn test_read_values_with_invalid_types() {
+        // missing type
+        let mut src = &[0x00][..];
+        assert_eq!(
+            read_values(&mut src, Number::Count(1), format::Type::Integer, 1),
+            Err(DecodeError::TypeMismatch)
+        );
+
+        // Number=0
+        let mut src = &[0x11, 0x05][..];
+        assert_eq!(
+            read_values(&mut src, Number::Count(0), format::Type::Integer, 1),
+            Err(DecodeError::InvalidNumber)
+        );
+
+        // A float value for an integer field.
+        let mut src = &[0x15, 0x00, 0x00, 0x00, 0x00][..];
+        assert_eq!(
+            read_values(&mut src, Number::Count(1), format::Type::Integer, 1),
+            Err(DecodeError::TypeMismatch)
+        );
+
+        // A genotype that is not a vector of 8-bit integers.
+        let mut src = &[0x12, 0x02, 0x00][..];
+        assert_eq!(
+            read_genotype_values(&mut src, 1),
+            Err(DecodeError::TypeMismatch)
         );
     }
 
